@@ -18,7 +18,8 @@ RULE = ("values: (i) exhaustive enumeration of all JSON trees with <= 2 nodes (q
         "after an outside rewrite; for the buffered classes also update / reset / item assignment over existing "
         "content inside obj.buffered and buffer_backend(), judged after the context is left; update / reset over a "
         "*lookalike* of the value - ==-equal scalar of another type, another falsy value, string vs list of its "
-        "characters, dict vs list of its keys, empty container of the other kind) of each of "
+        "characters, dict vs list of its keys, empty container of the other kind, strict superset / subset of a dict, "
+        "strict extension / prefix of a list) of each of "
         "the 18 classes, then read back through a *fresh* object on the same resource and, independently, from "
         "the resource itself; both must be strictly equal (same JSON type at every leaf) to the expected plain "
         "content. distinct = (class, entry point, value) triple; non-trivial = every triple.")
@@ -95,8 +96,9 @@ LIST_ENTRIES = ["ctor", "setitem", "slice", "append", "extend", "insert", "iadd"
 # scalars of another type, the other falsy values, a string vs the list of its characters, a dict vs the list of
 # its keys, an empty container of the other kind) - through the in-place merge of update() / reset()
 LOOKALIKE_ENTRIES = ["update_over_lookalike#0", "update_over_lookalike#1", "update_over_lookalike#2",
+                     "update_over_lookalike#3", "update_over_lookalike#4",
                      "reset_over_lookalike#0", "reset_over_lookalike#1", "reset_over_lookalike#2",
-                     "reset_over_lookalike#3"]
+                     "reset_over_lookalike#3", "reset_over_lookalike#4", "reset_over_lookalike#5"]
 FALSY = [None, False, 0, 0.0, "", [], {}]
 
 
@@ -115,11 +117,20 @@ def lookalikes(value):
     elif isinstance(value, str):
         out.append(list(value))
     elif isinstance(value, list):
+        # a strict extension / a strict prefix of the value (a comparison that stops at the shorter one)
+        out.append(copy.deepcopy(value) + ["zz+"])
+        if value:
+            out.append(copy.deepcopy(value[:-1]))
         if all(isinstance(x, str) and len(x) == 1 for x in value):
             out.append("".join(value))
         if not value:
             out.append({})
     elif isinstance(value, dict):
+        # a strict superset / a strict subset of the value (a comparison that only looks at the new keys, or
+        # only at the old ones)
+        out.append({**copy.deepcopy(value), "zz+": 1})
+        if value:
+            out.append(copy.deepcopy(dict(list(value.items())[:-1])))
         out.append(list(value))
     if not value and value is not None or value is None:
         out += [f for f in FALSY if not (type(f) is type(value) and f == value)]
